@@ -3,12 +3,15 @@ import PynguinModel.Model.Generators
 /-! Line-protocol driver for C26: one JSON case per line in, one JSON line out.
 
 Case: `{"classes":[[cls,[base,…]],…], "extra":[[sup,sub],…], "tower":[bool,int,float,complex]|null,
-        "generics":[[cls,k],…], "anyD":n, "prims":[cls,…], "pool":[ty,…],
-        "adds":[[poolIndex, generatorId],…],
-        "ops":[["q",[kind,[i,j]]] | ["edge",["",[sup,sub]]] | ["gens",["",[i,0]]],…], "final":[[kind,[i,j]],…]}`
+        "generics":[[cls,k],…], "anyD":n, "maxU":n, "prims":[cls,…], "strs":[str(class),…], "pool":[ty,…],
+        "accs":[[retPoolIndex, fixedPoolIndex|null],…] (by generator id), "adds":[generatorId,…],
+        "ops":[["q",[kind,[i,j]]] | ["edge",["",[sup,sub]]] | ["gens",["",[i,0]]] | ["upd",["",[generatorId,obsPoolIndex]]]
+               | ["add",["",[generatorId,0]]],…], "final":[[kind,[i,j]],…]}`
 Types: `"A"` Any, `"N"` None, `{"i":[cls,[ty,…]]}`, `{"t":[unknown_size,[ty,…]]}`, `{"u":[ty,…]}`.
 Query kinds (i, j index the pool, or are class ids): `subclass sub maybe dist subs sups`.
-Output: `{"edges":…, "table":[[ty,[id,…]],…], "out":[answer|null|{"h":[[id,d],…],"r":[id,…]},…], "final":[answer,…]}`. -/
+Output: `{"edges":…, "table":[[ty,[id,…]],…] (after the initial adds), "out":[answer|null|{"h":[[id,d],…],"r":[id,…]}
+         |{"tbl":table,"ret":ty} (after `upd`/`add`: the whole table and the accessible's signature return type),…],
+         "final":[answer,…], "table_end":table, "rets":[ty,…]}`. -/
 open Lean PynguinModel.Types PynguinModel.Generators
 
 partial def parseTy (j : Json) : Except String Ty :=
@@ -45,9 +48,12 @@ structure Case where
   tower : Option (List Nat)
   generics : List (Nat × Nat)
   anyD : Nat
+  maxU : Nat
   prims : List Nat
+  strs : List String
   pool : List Json
-  adds : List (Nat × Nat)
+  accs : List (Nat × Option Nat)
+  adds : List Nat
   ops : List (String × String × Nat × Nat)
   final : List (String × Nat × Nat)
   deriving FromJson
@@ -81,8 +87,16 @@ def runCase (c : Case) : Except String Json := do
     | "subs" => pure (.subclasses i)
     | "sups" => pure (.superclasses i)
     | _ => throw s!"unknown query kind {kind}"
-  let adds ← c.adds.mapM fun (ti, gid) => do pure ((← get ti), gid)
-  let tbl := addAll c.prims adds
+  let accs ← c.accs.mapM fun (ri, fi) => do
+    let fixed ← match fi with
+      | some k => do pure (some (← get k))
+      | none => pure none
+    pure ({ ret := (← get ri), fixed := fixed } : Acc)
+  let key := tyStr c.strs
+  let tblJ (tbl : Table) : Json := Json.arr (tbl.map fun p => Json.arr #[tyJson p.1, toJson p.2]).toArray
+  let retJ (cl : Cl) (i : Nat) : Json := match cl.accs[i]? with | some a => tyJson a.ret | none => Json.null
+  let mut cl : Cl := c.adds.foldl (addGenerator c.prims) ⟨[], accs⟩
+  let tbl0 := cl.tbl
   let mut s : St := ⟨g, []⟩
   let mut outs : Array Json := #[]
   for (op, kind, i, j) in c.ops do
@@ -96,10 +110,16 @@ def runCase (c : Case) : Except String Json := do
       outs := outs.push Json.null
     | "gens" =>
       let T ← get i
-      let h := offeredHeuristic s.g c.anyD c.prims tbl T
-      let r := offeredRandom s.g tbl T
+      let h := offeredHeuristic s.g c.anyD c.prims cl.tbl T
+      let r := offeredRandom s.g cl.tbl T
       outs := outs.push (Json.mkObj [
         ("h", Json.arr (h.map fun p => Json.arr #[toJson p.1, optJ p.2]).toArray), ("r", toJson r)])
+    | "upd" =>
+      cl := updateReturnType key c.maxU cl i (← get j)
+      outs := outs.push (Json.mkObj [("tbl", tblJ cl.tbl), ("ret", retJ cl i)])
+    | "add" =>
+      cl := addGenerator c.prims cl i
+      outs := outs.push (Json.mkObj [("tbl", tblJ cl.tbl), ("ret", retJ cl i)])
     | _ => throw s!"unknown op {op}"
   let mut fin : Array Json := #[]
   for (kind, i, j) in c.final do
@@ -107,8 +127,8 @@ def runCase (c : Case) : Except String Json := do
     s := r.1
     fin := fin.push (ansJ r.2)
   pure (Json.mkObj [("edges", toJson s.g.edges),
-                    ("table", Json.arr (tbl.map fun p => Json.arr #[tyJson p.1, toJson p.2]).toArray),
-                    ("out", Json.arr outs), ("final", Json.arr fin)])
+                    ("table", tblJ tbl0), ("out", Json.arr outs), ("final", Json.arr fin),
+                    ("table_end", tblJ cl.tbl), ("rets", Json.arr (cl.accs.map fun a => tyJson a.ret).toArray)])
 
 partial def loop (h : IO.FS.Stream) : IO Unit := do
   let line ← h.getLine
